@@ -8,7 +8,7 @@ def run(c):
     c.only_clauses = clauses.OWN["C17"]
     obl_phonetic.obl_split(c, 4 if c.tier == "quick" else 5, budget_s=900)
     A.validate_assembly_concrete(c)     # a mismatch makes the run inconclusive; the obligations still run, and what they find is reported only after native confirmation
-    ct = A.conv_table_for([p for w in A.WRAPPERS_QUICK for p in w])
+    ct = A.conv_table_for([p for w in A.WRAPPERS_QUICK + A.QUOTE_THEN_CONVERTED for p in w])
     A.obl_quote_pair(c, ct, thorough=(c.tier == "thorough"), budget_s=1500)
     A.obl_fixed_assembly(c, thorough=(c.tier == "thorough"), budget_s=1200, mode="quote_pair")
     # "same length, order and preselection": also after a choice was learned for a quoted word
